@@ -23,7 +23,7 @@
 //   O5 an OPTIONAL child whose subtree contains a failing module never changes the hooks of any module
 //      outside that subtree: the hook log projected on the outside modules equals the log of the same
 //      history on the program with that subtree removed (executed on the real code as well).
-// argv: bfs <nmax> <depth> <k> <K> [xcheck_nmax]   |   replay <P-spec> <Q-spec>
+// argv: bfs <nmax> <depth> <k> <K> [xcheck_nmax [xcheck_depth]]   |   replay <P-spec> <Q-spec>
 #include "hist/hist.h"
 #include <tbox/base/json.hpp>
 #include <tbox/main/module.h>
@@ -336,7 +336,7 @@ static void notePaths(const Prog &p, const Run &r) {
   for (int i = 0; i < r.nlog; i++) if (!r.log[i].ok && r.log[i].node > 0) { if (p.req[r.log[i].node]) c_pass_req_fail++; else c_pass_opt_fail++; }
 }
 
-static std::string g_cur_spec;
+static std::string g_cur_spec; static bool g_in_xcheck = false;
 
 // evaluate one history of one program: both finals + O5 reductions; returns canonical state
 static std::string evalHistory(const Prog &p, const Json &cfg, const std::vector<int> &optFail, const uint8_t *seq, int len, bool frontend, std::vector<std::string> *sigs_out = nullptr) {
@@ -364,7 +364,7 @@ static std::string evalHistory(const Prog &p, const Json &cfg, const std::vector
   record(p, seq, len, frontend, FIN_CLEANUP_DESTROY, r, fs);
   noteOutcome(p, r, !fs.empty()); notePaths(p, r);
   if (sigs_out) for (auto &f : fs) sigs_out->push_back(f.sig);
-  if (g_samples < 4 && p.n >= 3 && (frontend || len >= 3) && r.nlog >= 6 && (c_trans % 7) == 3) { g_samples++; printf("@SAMPLE prog=%s seq=%s final=cleanup+destroy => hooklog=[%s]%s\n", progStr(p).c_str(), seqStr(seq, len, frontend).c_str(), logStr(r.log, r.nlog).c_str(), fs.empty() ? "" : (" VIOL:" + fs[0].sig).c_str()); }
+  if (g_samples < 4 && !g_in_xcheck && p.n >= 3 && (frontend || len >= 3) && r.nlog >= 6 && (c_trans % 7) == 3) { g_samples++; printf("@SAMPLE prog=%s seq=%s final=%s => hooklog=[%s]%s\n", progStr(p).c_str(), seqStr(seq, len, frontend).c_str(), frontend ? "destroy" : "cleanup+destroy", logStr(r.log, r.nlog).c_str(), fs.empty() ? "" : (" VIOL:" + fs[0].sig).c_str()); }
   if (!frontend) {
     // destroy without cleanup(): crash-freedom and O1/O2 only
     std::vector<Finding> fs2;
@@ -379,7 +379,8 @@ static std::string evalHistory(const Prog &p, const Json &cfg, const std::vector
 
 static double g_deadline; static bool g_capped = false;
 
-static void exploreProgram(const Prog &p, int depth, bool xcheck) {
+static long c_fixpoint, c_maxdepth_new;
+static void exploreProgram(const Prog &p, int depth, bool xcheck, int xdepth) {
   // acceptance by the real add(), config by the real fillDefaultConfig()
   Probe *nodes[MAXN]; Probe *root = buildTree(p, -1, nodes);
   if (!root) { c_rejected++; return; }
@@ -404,24 +405,26 @@ static void exploreProgram(const Prog &p, int depth, bool xcheck) {
       std::vector<std::string> sg;
       std::string canon = evalHistory(p, cfg, optFail, c.data(), (int)c.size(), false, &sg); c_trans++;
       for (auto &s : sg) sigs_bfs.insert(s);
-      if (seen.insert(canon).second) { c_states++; next.push_back(c); }
+      if (seen.insert(canon).second) { c_states++; next.push_back(c); if (d + 1 > c_maxdepth_new) c_maxdepth_new = d + 1; }
     }
     layer.swap(next);
   }
+  if (layer.empty()) c_fixpoint++;   // no unexplored state left: longer sequences cannot reach anything new
   { std::vector<std::string> sg; evalHistory(p, cfg, optFail, nullptr, 0, true, &sg); c_trans++; }
   // cross-check of the dedup: plain enumeration of ALL sequences reaches no other canonical state / signature
   if (xcheck) {
-    c_xcheck_progs++;
-    uint8_t s[MAXSEQ]; long total = 1; for (int len = 1; len <= depth; len++) {
+    c_xcheck_progs++; g_in_xcheck = true;
+    uint8_t s[MAXSEQ]; long total = 1; for (int len = 1; len <= xdepth; len++) {
       total = 1; for (int i = 0; i < len; i++) total *= 4;
       for (long v = 0; v < total; v++) {
         long t = v; for (int i = 0; i < len; i++) { s[i] = (uint8_t)(t & 3); t >>= 2; }
-        std::vector<std::string> sg; long keep_states = c_states;
-        std::string canon = evalHistory(p, cfg, optFail, s, len, false, &sg); c_xcheck_seqs++; (void)keep_states;
+        std::vector<std::string> sg;
+        std::string canon = evalHistory(p, cfg, optFail, s, len, false, &sg); c_xcheck_seqs++;
         bool bad = !seen.count(canon); for (auto &x : sg) if (!sigs_bfs.count(x)) bad = true;
         if (bad) { g_sigcount["harness-dedup-unsound"]++; if (g_sigcount["harness-dedup-unsound"] <= 2) printf("@VIOL sig=harness-dedup-unsound :: prog=%s seq=%s canon=%s\n", progStr(p).c_str(), seqStr(s, len, false).c_str(), canon.c_str()); }
       }
     }
+    g_in_xcheck = false;
   }
 }
 
@@ -459,7 +462,7 @@ int main(int argc, char **argv) {
   setvbuf(stdout, nullptr, _IOLBF, 0);
   if (argc >= 4 && !strcmp(argv[1], "replay")) return replay(argv[2], argv[3]);
   int nmax = argc > 2 ? atoi(argv[2]) : 3, depth = argc > 3 ? atoi(argv[3]) : 4, k = argc > 4 ? atoi(argv[4]) : 0, K = argc > 5 ? atoi(argv[5]) : 1;
-  int xn = argc > 6 ? atoi(argv[6]) : 0;
+  int xn = argc > 6 ? atoi(argv[6]) : 0; int xdepth = argc > 7 ? atoi(argv[7]) : depth; if (xdepth > depth) xdepth = depth;
   if (nmax >= MAXN) nmax = MAXN - 1; if (depth > MAXSEQ) depth = MAXSEQ;
   hx::install_crash_reporter("C11-crash");
   g_deadline = hx::deadline_from_env(1200);
@@ -480,19 +483,20 @@ int main(int argc, char **argv) {
             for (int cf = 1; cf >= 0; cf--) {
               if (!cf && nm == 0) continue;   // config only matters for named modules
               p.cfg = cf;
-              exploreProgram(p, depth, n <= xn);
+              exploreProgram(p, depth, n <= xn, xdepth);
             }
           }
         }
   }
   for (auto &kv : g_best) for (auto &b : kv.second) printf("@VIOL sig=%s :: %s\n", kv.first.c_str(), b.text.c_str());
   for (auto &s : g_profiles) printf("@OUTCOME %s\n", s.c_str());
-  for (auto &kv : g_sigcount) printf("@INFO part %d/%d: signature %s seen in %ld evaluations\n", k, K, kv.first.c_str(), kv.second);
+  for (auto &kv : g_sigcount) printf("@STAT evals_with:%s=%ld\n", kv.first.c_str(), kv.second);
   printf("@STAT states=%ld transitions=%ld executions=%ld programs=%ld programs_rejected_by_add=%ld hooks_observed=%ld hooklogs_distinct_sum_over_partitions=%zu "
          "optional_subtree_reductions=%ld balance_judged=%ld frontend_scripts=%ld frontend_initfail_nocleanup_unbalanced_info=%ld failing_hooks_of_required=%ld failing_hooks_of_optional=%ld "
-         "evaluations_with_failing_hook=%ld evaluations_with_violation=%ld xcheck_programs=%ld xcheck_plain_sequences=%ld\n",
+         "evaluations_with_failing_hook=%ld evaluations_with_violation=%ld xcheck_programs=%ld xcheck_plain_sequences=%ld programs_bfs_fixpoint=%ld\n",
          c_states, c_trans, c_exec, c_programs, c_rejected, c_hooks, g_loghashes.size(), c_meta, c_balance_judged, c_frontend, c_frontend_nocleanup_unbalanced,
-         c_pass_req_fail, c_pass_opt_fail, c_eval_with_failure_hook, g_viol_evals, c_xcheck_progs, c_xcheck_seqs);
+         c_pass_req_fail, c_pass_opt_fail, c_eval_with_failure_hook, g_viol_evals, c_xcheck_progs, c_xcheck_seqs, c_fixpoint);
+  if (k < 2) printf("@INFO part %d/%d: deepest history that reached a new canonical state has length %ld (depth bound %d); %ld of %ld programs reached the BFS fixpoint\n", k, K, c_maxdepth_new, depth, c_fixpoint, c_programs);
   fflush(stdout);
   return 0;
 }
